@@ -6,6 +6,7 @@ printed as KNOWN-FINDING lines), 1 = VIOLATION line printed, 2 = tool error.
 import hashlib
 import json
 import os
+import threading
 import re
 import shutil
 import subprocess
@@ -353,3 +354,20 @@ def write_ndjson(path, events):
         for e in events:
             f.write(json.dumps(e, ensure_ascii=True, separators=(",", ":")))
             f.write("\n")
+
+_SHIM_LOCK = threading.Lock()
+
+
+def clock_env(epoch):
+    """environment under which a child process observes `epoch` (seconds since 1970) as its wall clock at start-up
+    (LD_PRELOAD shim lib/clockshim.c, compiled into work/ on first use)"""
+    so = os.path.join(WORK, "clockshim.so")
+    src = os.path.join(VERIF, "lib", "clockshim.c")
+    with _SHIM_LOCK:
+        if not os.path.exists(so) or os.path.getmtime(so) < os.path.getmtime(src):
+            os.makedirs(WORK, exist_ok=True)
+            r = subprocess.run(["cc", "-shared", "-fPIC", "-O1", "-o", so + ".tmp", src, "-ldl"], stdout=subprocess.PIPE, stderr=subprocess.PIPE)
+            if r.returncode != 0:
+                raise ToolError("cannot build the clock shim: " + r.stderr.decode()[-400:])
+            os.replace(so + ".tmp", so)
+    return {"LD_PRELOAD": so, "VERIF_EPOCH": str(int(epoch))}
